@@ -111,6 +111,28 @@ def new_group_event(ev, o, gam, h=1, seed=0):
         return None
 
 
+def set_config_event(ev, s, o, gam, h=1, k=0):
+    """History step: the configuration attributes of the live object are re-assigned - as the plain strings
+    the label type compares equal to (k even) or as enum members (k odd); k also selects which of the
+    other three configurations.  Returns the new abstract object (or None)."""
+    from score_analysis.scores import BinaryLabel
+    others = [(a, b) for a in ("pos", "neg") for b in ("pos", "neg") if (a, b) != (o["sc"], o["ec"])]
+    sc, ec = others[k % 3]
+    e = ev("SetConfig", h=h, sc=sc, ec=ec, as_string=k % 2 == 0, post=dict(EMPTY_POST))
+    try:
+        if k % 2 == 0:
+            s.score_class, s.equal_class = sc, ec
+        else:
+            s.score_class, s.equal_class = BinaryLabel(sc), BinaryLabel(ec)
+        vals = list(o["pos"]) + list(o["neg"]) + [0]
+        e["post"] = alpha_obj(s, inv_map(gam, min(vals) - 2, max(vals) + 3) if max(vals) > 35 or min(vals) < -35
+                              else inv_map(gam))
+        return dict(o, sc=sc, ec=ec)
+    except Exception as ex:  # noqa
+        e["exc"] = exc_str(ex)
+        return None
+
+
 def rel_scores(o, m):
     if m in ("tpr", "fnr"):
         return list(o["pos"])
